@@ -184,10 +184,13 @@ func c19Build(p c19Param) *schedInst {
 			return
 		}
 		x := t.Exec()
-		// no lost wake-up / independent keys never block each other: a worker that cannot proceed
-		// inside Lock is waiting for a key that some other caller currently has.
+		// no lost wake-up / independent keys never block each other: a worker that waits for the key's
+		// channel inside Lock is waiting for a key that some other caller currently has. (Waiting for
+		// the map's own mutex is not judged: whoever holds it is inside a short critical section - an
+		// implementation may release the key inside that section - and a mutex that is never released
+		// ends the execution in "no enabled thread".)
 		for w := 0; w < nW; w++ {
-			if want[w] != "" && x.ThreadBlocked(w) && busy[want[w]] == 0 {
+			if want[w] != "" && x.ThreadWaitsOnChannel(w) && busy[want[w]] == 0 {
 				fail("blocked", "worker %d is blocked in Lock(%q) although no caller holds that key", w, want[w])
 			}
 		}
